@@ -35,7 +35,7 @@ def baseline_in(wt):
     base = json.load(open("/root/.vp/BASELINE.json"))
     out = tempfile.mktemp(suffix=".junit.xml", dir="/var/tmp")
     cmd = base["cmd"].replace("<file>", out).replace("cd /repo", f"cd {wt}")
-    env = dict(os.environ, PYTHONPATH=wt)
+    env = dict(os.environ, PYTHONPATH=wt, OMP_NUM_THREADS="2", MKL_NUM_THREADS="2")  # several suites may run side by side
     sh(cmd, env=env, timeout=3600)
     passed = set()
     for tc in ET.parse(out).getroot().iter("testcase"):
